@@ -33,6 +33,11 @@ pub enum Src {
         /// `MIMIUM_LIB_PATH` while this project is compiled (and only then)
         #[serde(default)]
         lib: Option<(String, String)>,
+        /// when set: the directory name (instead of the content-derived one). Used for in-place
+        /// edits: an earlier save of the same project, with other (or broken) file contents, lives
+        /// at exactly the target's paths. The name holds the run's seed, so no other run shares it
+        #[serde(default)]
+        at: Option<String>,
     },
 }
 impl Src {
@@ -43,8 +48,8 @@ impl Src {
                 (std::fs::read_to_string(&full).unwrap_or_default(), Some(PathBuf::from(full)))
             }
             Src::Text(t) => (t.clone(), None),
-            Src::Project { main, files, lib } => {
-                let dir = crate::sut::scratch_dir().join("proj").join(self.label().replace(':', "_"));
+            Src::Project { main, files, lib, .. } => {
+                let dir = crate::sut::scratch_dir().join("proj").join(self.dir_label());
                 let _ = std::fs::create_dir_all(&dir);
                 let put = |name: &str, text: &str| {
                     let dst = dir.join(name);
@@ -73,11 +78,18 @@ impl Src {
             }
         }
     }
+    /// Name of the directory a project is materialised in.
+    pub fn dir_label(&self) -> String {
+        match self {
+            Src::Project { at: Some(a), .. } => a.clone(),
+            _ => self.label().replace(':', "_"),
+        }
+    }
     pub fn label(&self) -> String {
         match self {
             Src::File(r) => r.rsplit('/').next().unwrap_or(r).to_string(),
             Src::Text(t) => format!("text:{:08x}", fnv(t.as_bytes()) as u32),
-            Src::Project { main, files, lib } => {
+            Src::Project { main, files, lib, .. } => {
                 let mut all = main.clone();
                 if let Some((n, t)) = lib {
                     all.push_str("\u{1}");
@@ -103,7 +115,7 @@ pub struct LibEnv(bool);
 impl LibEnv {
     pub fn enter(src: &Src) -> LibEnv {
         if let Src::Project { lib: Some(_), .. } = src {
-            let dir = crate::sut::scratch_dir().join("proj").join(src.label().replace(':', "_")).join("libdir");
+            let dir = crate::sut::scratch_dir().join("proj").join(src.dir_label()).join("libdir");
             unsafe { std::env::set_var("MIMIUM_LIB_PATH", dir) };
             LibEnv(true)
         } else {
@@ -446,6 +458,8 @@ pub fn child(run: &DetRun, dump: bool) -> (Digests, Digests) {
             let src = src.clone();
             let path = path.clone();
             move || {
+                // (an in-place history item may have left other contents at the target's paths)
+                let _ = target_src.load();
                 let _lib_env = LibEnv::enter(&target_src);
                 let a = digest_target(&src, path.clone(), samples, dump);
                 // "across repeated compilations in one process"
@@ -770,10 +784,10 @@ pub fn gen_project(rng: &mut Rng) -> Src {
         let g = rng.range(1, 9) as f64 * 0.25;
         let lib = format!("fn libgain(x){{\n    x * {g:?}\n}}\n");
         let main = format!("include(\"veriflib.mmm\")\n{head}fn dsp(){{\n    libgain({call})\n}}\n");
-        return Src::Project { main, files: vec![(format!("{m}.mmm"), modsrc)], lib: Some(("veriflib.mmm".into(), lib)) };
+        return Src::Project { main, files: vec![(format!("{m}.mmm"), modsrc)], lib: Some(("veriflib.mmm".into(), lib)), at: None };
     }
     let main = format!("{head}fn dsp(){{\n    {call}\n}}\n");
-    Src::Project { main, files: vec![(format!("{m}.mmm"), modsrc)], lib: None }
+    Src::Project { main, files: vec![(format!("{m}.mmm"), modsrc)], lib: None, at: None }
 }
 
 pub fn gen_c15(seed: u64, corpus: &[String]) -> DetRun {
@@ -803,6 +817,31 @@ pub fn gen_c15(seed: u64, corpus: &[String]) -> DetRun {
         }
         _ => Src::File(r.pick(corpus).clone()),
     };
+    // in-place edits: half of the project targets live in a directory of their own (named after
+    // the run), and the history then contains earlier saves of the SAME files: a module file
+    // with a syntax error, cut short, or with other valid contents (the live-coding sequence
+    // "save with a typo, fix it, save again" on a long-lived compiler thread)
+    let mut r_ip = root.sub("in-place-edits");
+    let mut target = target;
+    let mut in_place: Vec<Src> = vec![];
+    if let Src::Project { main, files, lib, .. } = target.clone() {
+        if r_ip.chance(1, 2) {
+            let at = Some(format!("ip{seed:016x}"));
+            target = Src::Project { main: main.clone(), files: files.clone(), lib: lib.clone(), at: at.clone() };
+            for _ in 0..r_ip.range(1, 2) {
+                let mut fs = files.clone();
+                let (name, text) = fs[0].clone();
+                let edited = match r_ip.below(4) {
+                    0 => format!("{text}\nfn broken( {{ let = \n"),
+                    1 => text[..text.len() * 3 / 5].to_string(),
+                    2 => text.replace("x *", "x * 2.0 *"),
+                    _ => format!("pub fn unfinished(x){{\n    x +\n}}\n{text}"),
+                };
+                fs[0] = (name, edited);
+                in_place.push(Src::Project { main: main.clone(), files: fs, lib: lib.clone(), at: at.clone() });
+            }
+        }
+    }
     let (tsrc, _) = target.load();
     let hist_len = match r_cfg.below(4) {
         0 => 0,
@@ -825,6 +864,18 @@ pub fn gen_c15(seed: u64, corpus: &[String]) -> DetRun {
             on_thread: r.chance(1, 3),
             ctx_variant: *r.pick(&[0u8, 0, 0, 1, 2]),
         });
+    }
+    for (k, src) in in_place.into_iter().enumerate() {
+        let pos = if history.is_empty() { 0 } else { r_ip.below(history.len() as u64 + 1) as usize };
+        history.insert(
+            pos.max(k.min(history.len())),
+            HistItem {
+                src,
+                entry: *r_ip.pick(&[Entry::Mir, Entry::Bytecode, Entry::Bytecode, Entry::Wasm, Entry::RunVm]),
+                on_thread: r_ip.chance(1, 4),
+                ctx_variant: 0,
+            },
+        );
     }
     // one run in three: the process first uses a front-end-only entry point, before any
     // ExecContext exists, on a text built from the target's own names (separate sub-stream, so
